@@ -88,6 +88,29 @@ def _job_inner(job: dict[str, Any]) -> list[dict[str, Any]]:
                 keep(r, {"mode": "crash", "victim": name, "k": k, "seed": job.get("seed"),
                          "schedule": r["schedule"]})
         out[0]["stats"] = {"executions": ncrash + 1, "truncated": 0}
+    elif mode == "park":
+        # reference run, then every (actor, k): the actor is delayed after its k-th step while the others finish
+        ref = run_one(scn, sched.sequential, **job.get("kw", {}))
+        keep(ref, {"mode": "park-ref", "schedule": ref["schedule"]})
+        n = 0
+        for name, steps in sorted(ref["actor_steps"].items()):
+            if job.get("roles") and name.split(":")[0] not in job["roles"]:
+                continue
+            for k in range(0, steps + 1):
+                r = run_one(scn, sched.park_at(name, k), **job.get("kw", {}))
+                n += 1
+                keep(r, {"mode": "park", "victim": name, "k": k, "schedule": r["schedule"]})
+                if not job.get("second") or name.split(":")[0] not in job["second"]["first_roles"]:
+                    continue
+                # a second slow actor: every worker that exists in this execution, delayed at each of its points
+                for w, wsteps in sorted(r["actor_steps"].items()):
+                    if w == name or w.split(":")[0] not in job["second"]["second_roles"]:
+                        continue
+                    for j in range(1, wsteps):
+                        r2 = run_one(scn, sched.park_multi([(name, k), (w, j)]), **job.get("kw", {}))
+                        n += 1
+                        keep(r2, {"mode": "park2", "victim": name, "k": k, "second": w, "j": j, "schedule": r2["schedule"]})
+        out[0]["stats"] = {"executions": n + 1, "truncated": 0}
     elif mode == "model":
         pol = ModelReplay(job["error_trace"])
         r = run_one(scn, pol, **job.get("kw", {}))
